@@ -383,6 +383,8 @@ SCHED = ("stateless preemption-bounded depth-first exploration of thread schedul
 def explain(prop, tier):
     if prop in ("C02", "C09"):
         extra = " Plus loom model checking of the valid_after watermark primitive (every lock acquisition a scheduling point)." if prop == "C02" else ""
+        if prop == "C09":
+            extra = " Plus E1 under a single-thread scheduler: " + EXPLAIN["seq"] + " A blocking point whose probe is false (the caller holds the lock it wants), 20000 yields without progress or 3000000 instrumented points inside one call are reported as self-deadlock / livelock instead of hanging the worker."
         return SCHED + extra
     base = _explain(prop, tier)
     if prop in ("C03", "C04", "C06", "C07", "C08", "C10", "C11", "C16"):
@@ -393,11 +395,11 @@ def explain(prop, tier):
 def _explain(prop, tier):
     extra = {
         "C08": " Plus exhaustive search of the intrusive list (facade) to its fixpoint and of the sketch from all-odd tables.",
-        "C12": " M-lru: the probation order must equal the residents sorted by last insert/update/successful get after every op, and evictions must be the shortest LRU prefix.",
-        "C13": " M-tinylfu: admission decision predicted from the implementation's own estimates read just before the insert.",
+        "C12": " M-lru: the probation order must equal the residents sorted by last insert/update/successful get after every op, and evictions must be the shortest LRU prefix. M-pass (sync cache without maintenance after every op): a whole maintenance pass is predicted from the map, the access-order queue, the read log and the write log it finds; residents, recency order and counters after sync() must equal the prediction.",
+        "C13": " M-tinylfu: admission decision predicted from the implementation's own estimates read just before the insert. M-pass (sync cache without maintenance after every op): every admission contest inside a pass over several queued ops is predicted with the estimates read after the pass (the sketch only changes while the read log is applied, which comes first).",
         "C14": " Sketch: BFS over increment sequences on the real FrequencySketch from the empty table and from all-odd tables, against an exact per-hash count model and a nibble-array reference of the whole table; plus cache histories for 'only get is recorded'.",
         "C15": " At every reachable state and for every contains_key/iter call p: canon(s.p) == canon(s) (on the unsync cache after the maintenance both sides have due).",
-        "C17": " Exhaustive enumeration of builder knob combinations; policy(), panic iff > 1000 years, differential history against the equivalent configuration.",
+        "C17": " Exhaustive enumeration of builder knob combinations; policy(), panic iff > 1000 years, two differential histories (one whose admissions do not depend on popularity, one with lookups before the cache is half full followed by contests for room) against the equivalent configuration built with the same fixed hasher.",
     }.get(prop, "")
     if prop == "C17":
         return extra.strip()
